@@ -11,6 +11,7 @@ import (
 	"os"
 	"sort"
 	"strconv"
+	"time"
 
 	"github.com/dappledger/AnnChain/gemmill/types"
 
@@ -412,6 +413,50 @@ func main() {
 	if len(os.Args) < 2 {
 		fmt.Fprintln(os.Stderr, "usage: csim traces.json | csim tables cfg.json")
 		os.Exit(2)
+	}
+	if len(os.Args) >= 4 && os.Args[1] == "live" {
+		// csim live <cfg.json> <out.ndjson>: record a run of real goroutines (real receiveRoutine, real ticker)
+		var cfg map[string]interface{}
+		b, err := ioutil.ReadFile(os.Args[2])
+		if err == nil {
+			err = json.Unmarshal(b, &cfg)
+		}
+		if err != nil {
+			fmt.Fprintln(os.Stderr, err)
+			os.Exit(2)
+		}
+		dir, _ := ioutil.TempDir("", "csim-live-")
+		defer os.RemoveAll(dir)
+		sim, evs, rerr := csim.RunLive(dir, powersOf(cfg), intsOf(cfg["Byz"]), int64(mbt.Int(cfg["MaxRound"])),
+			int64(mbt.Int(cfg["Heights"])), int64(mbt.Int(cfg["Seed"])), time.Duration(mbt.Int(cfg["LimitMs"]))*time.Millisecond)
+		res := map[string]interface{}{"events": len(evs)}
+		if rerr != nil {
+			res["error"] = rerr.Error()
+		}
+		if sim != nil {
+			recs := sim.LiveTrace(evs)
+			f, err := os.Create(os.Args[3])
+			if err != nil {
+				fmt.Fprintln(os.Stderr, err)
+				os.Exit(2)
+			}
+			enc := json.NewEncoder(f)
+			for _, r := range recs {
+				enc.Encode(r)
+			}
+			f.Close()
+			if msg := sim.CheckAgreement(); msg != "" {
+				res["agreement"] = msg
+			}
+			hs := map[string]int64{}
+			for _, i := range sim.HonestIdx() {
+				hs[strconv.Itoa(i)] = sim.Nodes[i].Store.Height()
+			}
+			res["heights"] = hs
+			sim.Close()
+		}
+		json.NewEncoder(os.Stdout).Encode(res)
+		return
 	}
 	if len(os.Args) == 2 || os.Args[1] != "tables" {
 		// csim <traces.json>
